@@ -21,6 +21,11 @@ Theorem C16_se_frame_re_is_source_pattern : forall C, cc_ok C -> forall s,
 Proof. exact se_frame_re_python. Qed.
 Print Assumptions C16_se_frame_re_is_source_pattern.
 
+Theorem C16_repeat_re_is_source_pattern : forall C, cc_ok C -> forall s,
+  rmatch C gen_repeat_items true s [] = match repeat_re C s with Some d => Some [(1, d)] | None => None end.
+Proof. exact repeat_re_python. Qed.
+Print Assumptions C16_repeat_re_is_source_pattern.
+
 Theorem C16_underline_re_is_source_pattern : forall C s,
   (if rmatch C gen_underline_items true s [] then true else false) = underline_re s.
 Proof. exact underline_re_python. Qed.
